@@ -132,6 +132,7 @@ Definition add_trans_to (evs : list (event * list trans)) (e : event) (t : trans
 (* ------------------------------------------------------------------ operations *)
 Inductive op : Type :=
 | OAddModel (m : model) (init : option state)
+| OAddModels (ms : list model) (init : option state)    (* add_model([m1; m2; ...]): ONE call with a list *)
 | ORemoveModel (m : model)
 | OAddState (s : state) (sd : sdef)
 | OAddTransition (e : event) (t : trans)
@@ -188,6 +189,59 @@ Section Step.
     match add_core w m init with
     | (Some e, w1) => (inl e, w1)
     | (None, w1) => lay_graph (mem_nat m (w_models w)) (lay_queue (lay_locked w1 m) m) m
+    end.
+
+  (* ---- add_model with a LIST of models (also Machine(model=[...])): every layer loops over the list AFTER its
+     super() call looped over the whole list.  The same object may occur several times in the list. *)
+  (* core.py only: one element of the loop of Machine.add_model (`if mod not in self.models:` is evaluated
+     against the CURRENT list, so an in-call repetition is skipped) *)
+  Definition add_core1 (w : mworld) (m : model) (init : option state) : option exn * mworld :=
+    let mc := w_mc w in
+    let ini := match init with Some s => s | None => w_initial w end in
+    let o := w_obj w m in
+    if mem_nat m (w_models w) then (None, w)
+    else
+      let hs := add_helpers (machine_helpers k mc) (o_helpers o) in
+      match get_state mc ini with
+      | None => (Some ValueError, set_objs w (upd_obj (w_obj w) m (mkObj (o_state o) hs)))
+      | Some _ => (None, set_models (set_objs w (upd_obj (w_obj w) m (mkObj (Some ini) hs))) (w_models w ++ [m]))
+      end.
+
+  Fixpoint core_list (w : mworld) (ms : list model) (init : option state) : option exn * mworld :=
+    match ms with
+    | [] => (None, w)
+    | m :: r => match add_core1 w m init with
+                | (Some e, w1) => (Some e, w1)
+                | (None, w1) => core_list w1 r init
+                end
+    end.
+
+  (* nesting.add_model: the models of the list that were not registered before the call get set_state(<own
+     state>) — nothing changes on a flat configuration — and the 'to' helper unless present; registered
+     models are left alone *)
+  Definition hsm1 (known : list model) (w : mworld) (x : model) : mworld :=
+    if mem_nat x known then w
+    else set_objs w (upd_obj (w_obj w) x (mkObj (o_state (w_obj w x)) (add_helper (o_helpers (w_obj w x)) HTo))).
+  Definition hsm_list (known : list model) (w : mworld) (ms : list model) : mworld :=
+    if k_hsm k then fold_left (hsm1 known) ms w else w.
+
+  (* GraphMachine.add_model: `known` = the models registered BEFORE the call plus those handled so far (an
+     in-call repetition is skipped); stops at the first refusal: the models after it stay registered
+     without graph *)
+  Fixpoint graph_list (known : list model) (w : mworld) (ms : list model) : cres * mworld :=
+    match ms with
+    | [] => (inr None, w)
+    | m :: r => match lay_graph (mem_nat m known) w m with
+                | (inl e, w1) => (inl e, w1)
+                | (inr _, w1) => graph_list (add_key known m) w1 r
+                end
+    end.
+
+  Definition add_models (w : mworld) (ms : list model) (init : option state) : cres * mworld :=
+    match core_list w ms init with
+    | (Some e, w1) => (inl e, w1)
+    | (None, w1) =>
+        graph_list (w_models w) (fold_left lay_queue ms (fold_left lay_locked ms (hsm_list (w_models w) w1 ms))) ms
     end.
 
   (* remove_model of a registered model (an unregistered one: list.remove raises ValueError;
@@ -288,6 +342,7 @@ Section Step.
   Definition step (w : mworld) (o : op) : list block * cres * mworld :=
     match o with
     | OAddModel m init => let '(r, w') := add_model w m init in ([], r, w')
+    | OAddModels ms init => let '(r, w') := add_models w ms init in ([], r, w')
     | ORemoveModel m => let '(r, w') := remove_model w m in ([], r, w')
     | OAddState s sd => let '(r, w') := add_state w s sd in ([], r, w')
     | OAddTransition e t => let '(r, w') := add_transition w e t in ([], r, w')
